@@ -61,7 +61,11 @@ int Logger::operator()()
 {
    unsigned received(0);
 
+#if (FIX8_MPMC_SYSTEM == FIX8_MPMC_FF)
+   for (;;) // until the empty element that stop() queues behind everything accepted before it
+#else
    while (!_stopping)
+#endif
    {
 		LogElement *msg_ptr(0);
 
